@@ -260,6 +260,8 @@ pub struct World {
     pub handles: Vec<Box<dyn Server>>,
     pub ctls: Vec<HandleCtl>,
     pub realizers: Vec<Realizer>,
+    /// directories of SQLite-backed replicas
+    pub dirs: Vec<Option<std::sync::Arc<tempfile::TempDir>>>,
 }
 
 pub fn pool() -> Vec<Uuid> {
@@ -286,7 +288,29 @@ impl World {
             handles,
             ctls,
             realizers,
+            dirs: vec![None; replicas],
         }
+    }
+
+    /// Put replica r on a fresh SQLite directory (call before it is used).
+    pub fn make_sqlite(&mut self, r: usize) -> Result<(), Failure> {
+        let dir = tempfile::TempDir::new()
+            .map_err(|e| Failure::new("infra", format!("cannot create temp dir: {e}")))?;
+        self.reps[r] = Rep::sqlite(dir.path(), &pool())
+            .map_err(|e| Failure::new("sqlite-open", format!("cannot open SQLite storage: {e}")))?;
+        self.dirs[r] = Some(std::sync::Arc::new(dir));
+        Ok(())
+    }
+
+    /// Close and reopen a SQLite-backed replica ("restart"); no-op for in-memory ones.
+    pub fn reopen(&mut self, r: usize) -> Result<(), Failure> {
+        if let Some(dir) = self.dirs[r].clone() {
+            // drop the old handle first: this joins the storage thread and closes the connection
+            self.reps[r] = Rep::mem(&pool());
+            self.reps[r] = Rep::sqlite(dir.path(), &pool())
+                .map_err(|e| Failure::new("sqlite-reopen", format!("cannot reopen SQLite storage: {e}")))?;
+        }
+        Ok(())
     }
 
     pub fn add_replica(&mut self, rep: Rep) -> usize {
@@ -296,6 +320,7 @@ impl World {
         self.handles.push(h);
         self.ctls.push(c);
         self.realizers.push(Realizer::new(r));
+        self.dirs.push(None);
         r
     }
 
